@@ -864,8 +864,8 @@ class GCodeBuilder(GCodeCore):
 
         # Track parameters and write the statement
 
-        self._update_axes(target_axes, params)
         self._track_move_params(params)
+        self._update_axes(target_axes, params)
         self.write(statement)
 
     @typechecked
@@ -979,6 +979,25 @@ class GCodeBuilder(GCodeCore):
         statement, params = super()._prepare_rapid(point, params, comment)
         self._track_move_params(params)
         return statement, params
+
+    def _transform_move(self, point: Point) -> Tuple[Point, Point]:
+        """Transform target coordinates and determine movement.
+
+        Rejects the move, before anything is tracked, if its target
+        position lies outside of the user defined axes bounds.
+
+        Args:
+            point: Target position
+
+        Returns:
+            Tuple[Point, Point]: A tuple containing:
+                - Transformed absolute or relative movement vector
+                - Absolute target position before transformation
+        """
+
+        move, target_axes = super()._transform_move(point)
+        self.state._user_bounds.validate("axes", target_axes)
+        return move, target_axes
 
     def _track_move_params(self, params: ParamsDict) -> None:
         """Update the current state given the movement parameters.
